@@ -200,7 +200,7 @@ func matchLogfmtLeaf(v GVal, raw string) string {
 		return quoted(time.Duration(v.I).String())
 	case "time":
 		return quoted(fixedTime.Add(time.Duration(v.I)).Format(time.RFC3339Nano))
-	case "struct", "map":
+	case "struct", "map", "nilptr":
 		return quoted(fmt.Sprintf("{{%v}}", v.Go()))
 	case "strs":
 		return list(len(v.Strs), func(i int, e string) bool { s, ok := unq(e); return ok && s == v.Strs[i] })
